@@ -1577,6 +1577,8 @@ class Interp:
         if isinstance(node.op, ast.Not):
             return not self.truth(v, node)
         if isinstance(node.op, ast.USub):
+            if type(v).__module__ == "numpy" and type(v).__name__ == "ndarray":
+                return -v           # symbolic n-d array (ndsym)
             if isinstance(v, Term):
                 return Term("neg", [v])
             if isinstance(v, Num) or _is_sym(v):
@@ -1589,6 +1591,11 @@ class Interp:
             if isinstance(v, Opaque):
                 return Opaque("-" + v.tag)
             if isinstance(v, ExtRef):
+                if getattr(self, "sympy_mode", False):
+                    try:
+                        return -num_to_sym(v)       # a library constant (scipy.constants.*, numpy.pi ...)
+                    except TypeError:
+                        pass
                 return Opaque("-" + v.dotted)
         if isinstance(node.op, ast.UAdd):
             return v
